@@ -220,6 +220,9 @@ func c14Run(sc *C14Scenario) (v *nodeViolation, flags map[string]bool) {
 				if err := sn.node.processUnconfirmedTx(sn.ctx, td); err != nil {
 					return &nodeViolation{"C14/tx-thread-exit", err.Error()}, flags
 				}
+				if i, ok := idOf[*td.Msg.TxHash()]; ok {
+					sn.trace("TXSTEP tx%d processed; body in mempool now %v", i, sn.node.memPool.TransactionExists(td.Msg.TxHash()))
+				}
 				if i, ok := idOf[*td.Msg.TxHash()]; ok && confirmed[i] {
 					// a late body of a confirmed tx is dropped and the txid forgotten again
 					delete(hasReq, i)
@@ -313,6 +316,14 @@ func c14Run(sc *C14Scenario) (v *nodeViolation, flags map[string]bool) {
 				}()
 				if gate.waitHeld(done, 300*time.Millisecond) {
 					flags["block-held"] = true
+					if traceOn {
+						for i, tx := range txs {
+							sn.trace("HELD: tx%d in mempool (body) %v; node height %d", i, sn.node.memPool.TransactionExists(tx.TxHash()), sn.node.blocks.LastHeight())
+						}
+						for k, u := range uns {
+							sn.trace("HELD: connection %d tracks %d txids (gate saw %d ops)", k+1, u.un.txTracker.VerifTracked(), gate.seen)
+						}
+					}
 					actDone := make(chan *nodeViolation, 1)
 					go func() {
 						var wv *nodeViolation
